@@ -557,4 +557,13 @@ func ruleAcceptedRecorded(c *Ctx) {
 		}
 	}
 	R.Ob("handleRcpt/Session.Rcpt call found", "-", n >= 1, "no Session.Rcpt call site found")
+	// ... and the list is frozen while a chunked transfer is open: the LMTP status collector was built from it when the
+	// first chunk arrived ("BDAT 0" included), a recipient added afterwards has no channel and the final reply loop
+	// indexes past the collector
+	for _, st := range c.Sites("st:Conn.recipients") {
+		if _, _, v := storedField(st); isNilConst(v) {
+			continue
+		}
+		c.obUnreach("recipient list grows", st, aPipeOpen)
+	}
 }
